@@ -54,6 +54,15 @@ def run(ctx):
     ok = any(isinstance(n, ast.Call) and norm(n) == "set()" for n in walk_no_nested(ct)) and bool(list(calls_in(ct, "dfs")))
     ctx.ob("C34.R1", F + ":Project.check_target", "loop detection starts from an empty path set", ok, construct="empty-start")
 
+    # the loop check looks at the graph as it is NOW: dependencies can be added to a registered target at any time
+    # (Target.add_dependency), so a verdict remembered on the project from an earlier check may be stale
+    early = [r for r in walk_no_nested(ct) if isinstance(r, ast.Return) and any(isinstance(a, ast.If) for a in _anc34(r))]
+    memo = [a for a in ast.walk(ct) if isinstance(a, ast.Attribute) and isinstance(a.value, ast.Name) and a.value.id == "self" and a.attr not in ("dfs", "get_target", "targets", "dependencies", "logger")]
+    ctx.ob("C34.R1", F + ":Project.check_target", "every call walks the dependency graph again: no early return on a remembered verdict, no per-project memo of checked targets (Target.add_dependency changes the graph without telling the project)",
+           not early and not memo, construct="no-memo", node=(early or memo or [None])[0], detail="; ".join(sorted({"self." + a.attr for a in memo})))
+    ad = ctx.fn(F, "Target.add_dependency")
+    ctx.ob("C34.R1", F + ":Target.add_dependency", "(context) a dependency is added by mutating the target's own set, without notifying the project", any(isinstance(c, ast.Call) and norm(c.func) == "self.dependencies.add" for c in ast.walk(ad)) and "self.project" not in norm(ad), construct="graph-mutable-after-check")
+
     run_fn = ctx.fn(F, "TaskRunner.run")
     site = F + ":TaskRunner.run"
     # R2: no comparison sort without key
@@ -126,6 +135,15 @@ def run(ctx):
 
 
 def _anc(n):
+    out = []
+    n = getattr(n, "_parent", None)
+    while n is not None:
+        out.append(n)
+        n = getattr(n, "_parent", None)
+    return out
+
+
+def _anc34(n):
     out = []
     n = getattr(n, "_parent", None)
     while n is not None:
